@@ -5,6 +5,7 @@ package main
 import (
 	"fmt"
 	"os"
+	"sort"
 	"go/token"
 	"go/types"
 	"math/big"
@@ -258,6 +259,7 @@ func (fv *FV) applyContract(fr *Frame, st *State, c *Contract, args []Value, arg
 	penv := *env
 	penv.st = pre
 	locs = append(locs, penv.evalEach(c.ModEach)...)
+	locs = append(locs, penv.evalAllExcept(c.ModAll)...)
 	for _, m := range locs {
 		fv.frameCheckLoc(st, m, x, calleeName, ord)
 	}
@@ -366,6 +368,41 @@ func (fv *FV) frameCheckLoc(st *State, m modLoc, in ssa.Instruction, callee stri
 		if m.guard != nil {
 			g = Implies(m.guard, g)
 		}
+	case "map":
+		g = fv.frameAlts(st, Emb(m.addr, -2), false, nil, nil)
+	case "allexcept":
+		// the caller must itself declare an all-except frame protecting no more than the callee does
+		g = False
+		for _, c := range st.mods {
+			if c.kind != "allexcept" {
+				continue
+			}
+			ok := true
+			for f := range c.exceptFids {
+				if !m.exceptFids[f] {
+					ok = false
+				}
+			}
+			for f := range c.exceptMaps {
+				if !m.exceptMaps[f] {
+					ok = false
+				}
+			}
+			for f := range c.exceptGhost {
+				if !m.exceptGhost[f] {
+					ok = false
+				}
+			}
+			if ok {
+				g = True
+				if c.guard != nil {
+					g = c.guard
+				}
+				if m.guard != nil {
+					g = Implies(m.guard, g)
+				}
+			}
+		}
 	case "each":
 		// every target object of the callee must be covered by the caller's frame
 		fv.nfresh++
@@ -398,10 +435,24 @@ func (fv *FV) frameCheckLoc(st *State, m modLoc, in ssa.Instruction, callee stri
 			if c.kind == "ghost" && c.name == m.name {
 				g = True
 			}
+			if c.kind == "allexcept" && !c.exceptGhost[m.name] {
+				if c.guard != nil {
+					g = Or(g, c.guard)
+				} else {
+					g = True
+				}
+			}
 		}
 	case "ghostidx":
 		alts := []*Term{}
 		for _, c := range st.mods {
+			if c.kind == "allexcept" && !c.exceptGhost[m.name] {
+				if c.guard != nil {
+					alts = append(alts, c.guard)
+				} else {
+					alts = append(alts, True)
+				}
+			}
 			if c.kind == "ghost" && c.name == m.name {
 				alts = append(alts, True)
 			}
@@ -661,26 +712,26 @@ func (fv *FV) havocFramed(st *State, locs []modLoc, tag string) {
 			} else {
 				memMods = append(memMods, Eq(a, m.addr))
 			}
+		case "map":
+			cellMods = append(cellMods, Eq(a, m.addr))
 		case "each":
 			cellMods = append(cellMods, eachTarget(m, a))
+		case "allexcept":
+			c := Not(exceptTarget(m, a))
+			if m.guard != nil {
+				c = And(m.guard, c)
+			}
+			cellMods = append(cellMods, c)
+			memMods = append(memMods, True)
 		}
 	}
 	old := Lt(mk("rootid", IntSort, a), wm0)
-	keys := map[string]bool{}
-	for k := range st.heap.arrays {
-		keys[k] = true
-	}
-	if fv.l.mode == ModeInt {
-		for _, k := range []string{"H:Int", "H:Bool", "H:Ref", "M:Int#0", "M:Ref#0", "M:Int#1", "M:Int#2", "M:Int#3", "M:Bool#0"} {
-			keys[k] = true
-		}
-	}
+	keys := fv.allKeys(st)
 	for key := range keys {
 		var cur *Term
 		switch {
 		case strings.HasPrefix(key, "H:"):
-			s := sortFromKey(key[2:])
-			_, cur = st.heap.cellArr(s)
+			cur = st.heap.cellArrByKey(key)
 		case strings.HasPrefix(key, "M:"):
 			parts := strings.SplitN(key[2:], "#", 2)
 			k := 0
@@ -729,10 +780,14 @@ func (fv *FV) havocFramed(st *State, locs []modLoc, tag string) {
 	// every reference stored in the entry heap denotes an object that existed at entry
 	if fv.l.mode == ModeInt && !fv.entryRefAxioms {
 		fv.entryRefAxioms = true
-		h0 := Var("H_Ref_0", ArraySort(RefSort, RefSort))
-		q := Forall([]*Term{a}, Lt(mk("rootid", IntSort, Select(h0, a)), wm0))
-		q.Pats = [][]*Term{{Select(h0, a)}}
-		st.assume(q)
+		for key := range keys {
+			if strings.HasPrefix(key, "H:Ref:") {
+				h0 := (&Heap{arrays: map[string]*Term{}, l: fv.l}).cellArrByKey(key)
+				q := Forall([]*Term{a}, Lt(mk("rootid", IntSort, Select(h0, a)), wm0))
+				q.Pats = [][]*Term{{Select(h0, a)}}
+				st.assume(q)
+			}
+		}
 		m0 := Var("M_Ref_0_0", ArraySort(RefSort, ArraySort(IntSort, RefSort)))
 		q2 := Forall([]*Term{a, j}, Lt(mk("rootid", IntSort, Select(Select(m0, a), j)), wm0))
 		q2.Pats = [][]*Term{{Select(Select(m0, a), j)}}
@@ -746,6 +801,25 @@ func (fv *FV) havocFramed(st *State, locs []modLoc, tag string) {
 		}
 	}
 	fv.havoc(st, gl, tag)
+	for _, m := range locs {
+		if m.kind != "allexcept" {
+			continue
+		}
+		for name, g := range fv.P.Specs.GhostV {
+			if m.exceptGhost[name] {
+				continue
+			}
+			e := &Env{fv: fv, pkg: g.Pkg, st: st}
+			s := e.ghostSort(g.Type)
+			cur := fv.ghostCur(st, name, s)
+			nv := fv.fresh(tag+"_"+name, s)
+			if m.guard != nil {
+				st.ghost[name] = Ite(m.guard, nv, cur)
+			} else {
+				st.ghost[name] = nv
+			}
+		}
+	}
 }
 
 func sortFromKey(k string) *Sort {
@@ -1142,6 +1216,7 @@ func (fv *FV) mapDelete(st *State, m *Term, kv Value, mapT types.Type, x ssa.Ins
 	was := And(Neq(m, NilRef), Select(Select(dom, m), k))
 	st.heap.arrays[dk] = Store(dom, m, Store(Select(dom, m), k, False))
 	lk, la := fv.mapLenArr(st)
+	st.assume(Implies(was, Ge(Select(la, m), IntLit(1)))) // a map holding a key has at least one entry
 	st.heap.arrays[lk] = Store(la, m, Ite(was, Sub(Select(la, m), IntLit(1)), Select(la, m)))
 }
 
@@ -1238,4 +1313,28 @@ func (fv *FV) appendCases(st *State, s, t SliceV, et types.Type, x ssa.Instructi
 		outs = append(outs, Outcome{st: st3, results: []Value{SliceV{Arr: newArr, Off: IntLit(0), Len: newLen, Cap: newCap}}})
 	}
 	return outs
+}
+
+
+// allKeys: every heap array the function may touch (collected by a first symbolic pass) plus those of this state.
+func (fv *FV) allKeys(st *State) map[string]bool {
+	keys := map[string]bool{}
+	for k := range st.heap.arrays {
+		keys[k] = true
+	}
+	for k := range fv.touched {
+		keys[k] = true
+	}
+	return keys
+}
+
+func (fv *FV) cellKeys(st *State) []string {
+	var out []string
+	for k := range fv.allKeys(st) {
+		if strings.HasPrefix(k, "H:") {
+			out = append(out, k)
+		}
+	}
+	sort.Strings(out)
+	return out
 }
